@@ -160,6 +160,13 @@ fn check_case(c: &Case) -> (u64, Vec<Violation>) {
                     }
                 }
             }
+            // with fail-fast the run stops at the first faulty file: that one at least is reported with its path
+            if c.fail_fast && c.faults.iter().any(|f| *f != Fault::Healthy) {
+                let named = files.iter().zip(c.faults.iter()).any(|((name, _), fault)| *fault != Fault::Healthy && r.errors.iter().any(|e| e.contains(name.as_str())));
+                if !named {
+                    fail(format!("fail-fast run with faulty files reports no error naming one of them: {:?}", r.errors), perm);
+                }
+            }
             if !c.fail_fast && r.errors.len() != c.faults.iter().filter(|f| **f != Fault::Healthy).count() {
                 fail(format!("{} errors for {} faulty files: {:?}", r.errors.len(), c.faults.iter().filter(|f| **f != Fault::Healthy).count(), r.errors), perm);
             }
